@@ -422,8 +422,23 @@ impl State {
             // allocation failure the library has to cope with.
             unsafe {
                 let fd = OOM_FD.load(Ordering::Relaxed);
-                let msg = b"F harness-limit\n";
-                write(if fd >= 0 { fd } else { 2 }, msg.as_ptr(), msg.len());
+                let msg = b"F harness-limit request=";
+                let fd = if fd >= 0 { fd } else { 2 };
+                write(fd, msg.as_ptr(), msg.len());
+                // decimal without allocating
+                let mut digits = [0u8; 24];
+                let mut n = f.map(|l| l.size()).unwrap_or(0);
+                let mut i = digits.len() - 1;
+                digits[i] = b'\n';
+                loop {
+                    i -= 1;
+                    digits[i] = b'0' + (n % 10) as u8;
+                    n /= 10;
+                    if n == 0 {
+                        break;
+                    }
+                }
+                write(fd, digits.as_ptr().add(i), digits.len() - i);
                 _exit(EXIT_HARNESS_LIMIT);
             }
         }
@@ -512,7 +527,15 @@ impl State {
         let align = layout.align();
         self.alloc_index = self.alloc_index.saturating_add(1);
         let idx = self.alloc_index;
-        if self.cfg.fail_at != 0 && (idx == self.cfg.fail_at || (self.cfg.fail_persist && idx > self.cfg.fail_at)) {
+        // A single request larger than the whole simulated heap can never be
+        // served, however empty the heap is: it is refused the way every real
+        // allocator refuses it (null), and the run goes on under the rules for
+        // an allocation failure. (Not a harness limit: the workload never
+        // supplies that much; such a request comes from a size the library
+        // read from memory it should not have read, and the defect shows in
+        // the runs where that memory holds something else.)
+        let oversize = size > ARENA_LEN;
+        if oversize || (self.cfg.fail_at != 0 && (idx == self.cfg.fail_at || (self.cfg.fail_persist && idx > self.cfg.fail_at))) {
             self.counters.failed_allocs += 1;
             self.event(EventKind::FailedAlloc, 0, size, align, false);
             let fd = OOM_FD.load(Ordering::Relaxed);
